@@ -1,0 +1,22 @@
+//go:build verif
+
+package staking
+
+// Contracts for the deductive checker in /verif (comment-only; compiled only with -tags verif).
+// C08 ("... whether the delegation is requested by a Cosmos message, through a grant, or through the staking precompile"):
+// every transaction method of the staking precompile hands its message to the HAQQ wrapper message server built over the
+// precompile's own keeper - the server that carries the vesting guard validateDelegationAmountNotUnvested (verified in part
+// C08g-staking) - not to the bare SDK server. Extends the contracts of zz_contracts_c04_verif.go; lib spec /verif/specs/c08p.
+
+/*@
+extend func (Precompile).Delegate
+    call MsgServer.Delegate requires c08_wrapper: haqq_staking_wrapper(srv, p.stakingKeeper)
+extend func (Precompile).CreateValidator
+    call MsgServer.CreateValidator requires c08_wrapper: haqq_staking_wrapper(srv, p.stakingKeeper)
+extend func (Precompile).Undelegate
+    call MsgServer.Undelegate requires c08_wrapper: haqq_staking_wrapper(srv, p.stakingKeeper)
+extend func (Precompile).Redelegate
+    call MsgServer.BeginRedelegate requires c08_wrapper: haqq_staking_wrapper(srv, p.stakingKeeper)
+extend func (Precompile).CancelUnbondingDelegation
+    call MsgServer.CancelUnbondingDelegation requires c08_wrapper: haqq_staking_wrapper(srv, p.stakingKeeper)
+@*/
